@@ -132,6 +132,42 @@ def two_tetrahedra():
     return np.hstack([v, v2]), np.hstack([e, e + 4]).astype(np.uint32), np.hstack([d, d + 4]).astype(np.uint32)
 
 
+def pinched():
+    """Two tetrahedra sharing exactly one vertex (non-manifold vertex)."""
+    v, e, d = tetrahedron()
+    # second tetrahedron: reflect through the shared vertex 0
+    p0 = v[:, 0:1]
+    v2 = 2 * p0 - v[:, 1:]
+    verts = np.hstack([v, v2])
+    remap = {0: 0, 1: 4, 2: 5, 3: 6}
+    e2 = np.array([[remap[int(x)] for x in col] for col in e.T], dtype=np.uint32).T
+    # point reflection reverses orientation: swap two vertices of each reflected triangle
+    e2 = e2[[0, 2, 1], :]
+    return verts, np.hstack([e, e2]).astype(np.uint32), np.hstack([d, d + 4]).astype(np.uint32)
+
+
+def moebius(n=7):
+    """Moebius strip with 2n triangles (non-orientable, one boundary curve)."""
+    verts = []
+    for i in range(n):
+        t = 2 * np.pi * i / n
+        for s_ in (-0.4, 0.4):
+            r = 1.5 + s_ * np.cos(t / 2)
+            verts.append((r * np.cos(t), r * np.sin(t), s_ * np.sin(t / 2)))
+    elems = []
+    doms = []
+    for i in range(n):
+        a, b = 2 * i, 2 * i + 1
+        if i + 1 < n:
+            c, dd = 2 * (i + 1), 2 * (i + 1) + 1
+        else:
+            c, dd = 1, 0  # glue with a twist
+        elems.append((a, c, b))
+        elems.append((b, c, dd))
+        doms += [i % 2, i % 2]
+    return _pack(verts, elems, doms)
+
+
 FAMILIES = {
     "tetrahedron": tetrahedron,
     "octahedron": octahedron,
@@ -142,6 +178,8 @@ FAMILIES = {
     "torus": torus,
     "fan": fan,
     "two_tetrahedra": two_tetrahedra,
+    "pinched": pinched,
+    "moebius": moebius,
 }
 
 CLOSED = {"tetrahedron", "octahedron", "cube", "torus", "two_tetrahedra"}
